@@ -259,6 +259,19 @@ def r12_3(ctx, rep):
         raise MechanismMissing(R, "only %d tests/stores inspected in generator.py" % checked)
 
 
+@SPEC.rule(
+    "R12.4",
+    "the metadata function does not depend on inline_functions: a call node (what a user function is when it is not inlined) "
+    "never passes the operation whitelist of variable_metadata_function's affine fast path — with the call inlined the same "
+    "attribute is judged on its real operations, so admitting OP_CALL makes the two settings disagree (same rule as R13.4's "
+    "whitelist clause, evaluated here for the option pair)",
+)
+def r12_4(ctx, rep):
+    from .c13 import affine_rebuild
+
+    affine_rebuild(ctx, rep, "R12.4")
+
+
 # -- seeded variants ---------------------------------------------------------
 from ._mut import replace_in_func  # noqa: E402
 
